@@ -1,0 +1,21 @@
+//go:build verif
+
+package fp
+
+// Contracts for the fp.Set wrapper (set.go) — property C03 (zero value behaves as the empty set) —
+// checked by /verif/govc.  Comment-only file.
+
+//@ lemma setZeroValue[V any](v V, o Set[V])
+//@   prop C03
+//@   ensures !Set[V]{}.Contains(v) && Set[V]{}.Size() == 0 && Set[V]{}.IsEmpty() && !Set[V]{}.NonEmpty()
+//@   tag observers
+//@   ensures !Set[V]{}.Iterator().HasNext()
+//@   tag iteratorEmpty
+//@   ensures !Panics(Set[V]{}.Excl(v)) && Set[V]{}.Excl(v).Size() == 0
+//@   tag excl
+//@   ensures !Panics(Set[V]{}.Diff(o)) && Set[V]{}.Diff(o).Size() == 0 && !Set[V]{}.Diff(o).Contains(v)
+//@   tag diff
+//@   ensures !Panics(Set[V]{}.Intersect(o)) && Set[V]{}.Intersect(o).Size() == 0 && !Set[V]{}.Intersect(o).Contains(v)
+//@   tag intersect
+//@   ensures !Panics(Set[V]{}.SubsetOf(o)) && Set[V]{}.SubsetOf(o)
+//@   tag subsetOfAnything
